@@ -194,6 +194,96 @@ theorem cut_rings_deg (rings : List CutRing) (hv : ∀ r ∈ rings, r.Valid) (hn
   · rw [← hh.1, ← hfull, List.map_map]; rfl
   · rw [← hh.2, ← hfull, List.map_map]; rfl
 
+/-! ### from the end-point condition to closed groups -/
+
+theorem piece_length (vs : List P) (a b : Nat) (ha : a < vs.length) (hb : b < vs.length) : 2 ≤ (piece vs a b).length := by
+  unfold piece
+  split
+  · simp only [List.length_take, List.length_drop]; omega
+  · simp only [List.length_append, List.length_take, List.length_drop]; omega
+
+theorem CutRing.pieces_length (r : CutRing) (hv : r.Valid) : ∀ l ∈ r.pieces, 2 ≤ l.length := by
+  intro l hl
+  unfold CutRing.pieces cutRing at hl
+  obtain ⟨ab, hab, rfl⟩ := List.mem_map.mp hl
+  have := cutPairs_mem r.cuts ab hab
+  exact piece_length r.vs ab.1 ab.2 (hv.2.2 _ this.1) (hv.2.2 _ this.2)
+
+/-- **every group `Join` builds from pieces cut from vertex-disjoint simple rings is closed** — any number of rings,
+    any cut positions, any pieces reversed, the pieces listed in any order. `segs` are the member segments as
+    `buildPolygon` makes them (`line = full`, any member index and orientation annotation), their lines being the
+    pieces of the rings. -/
+theorem cut_rings_join_closed (rings : List CutRing) (hv : ∀ r ∈ rings, r.Valid) (hnd : (rings.flatMap (·.vs)).Nodup)
+    (segs : List Seg) (hline : FreshInput segs) (hfull : segs.map (·.full) = rings.flatMap (·.pieces))
+    (flip : Seg → Bool) (shuffled : List Seg)
+    (hsh : (segs.map fun s => if flip s then s.rev else s).Perm shuffled) :
+    ∀ g ∈ join shuffled, msFirst g = msLast g := by
+  have hdeg := cut_rings_deg rings hv hnd segs hfull flip shuffled hsh
+  -- every member of the shuffled list is a piece or a reversed piece
+  have hmem : ∀ s' ∈ shuffled, ∃ s ∈ segs, s' = s ∨ s' = s.rev := by
+    intro s' hs'
+    have := hsh.mem_iff.mpr hs'
+    obtain ⟨s, hs, rfl⟩ := List.mem_map.mp this
+    refine ⟨s, hs, ?_⟩
+    split
+    · exact Or.inr rfl
+    · exact Or.inl rfl
+  have hlen : ∀ s ∈ segs, 2 ≤ s.line.length := by
+    intro s hs
+    rw [hline s hs]
+    have hin : s.full ∈ rings.flatMap (·.pieces) := by rw [← hfull]; exact List.mem_map.mpr ⟨s, hs, rfl⟩
+    obtain ⟨r, hr, hp⟩ := List.mem_flatMap.mp hin
+    exact r.pieces_length (hv r hr) _ hp
+  have hfresh : FreshInput shuffled := by
+    intro s' hs'
+    obtain ⟨s, hs, e | e⟩ := hmem s' hs'
+    · rw [e]; exact hline s hs
+    · rw [e]; simp only [Seg.rev]; rw [hline s hs]
+  have hcompact : compact shuffled = shuffled := by
+    unfold compact
+    apply List.filter_eq_self.mpr
+    intro s' hs'
+    obtain ⟨s, hs, e | e⟩ := hmem s' hs'
+    · rw [e]; have := hlen s hs; simp; omega
+    · rw [e]; have := hlen s hs; simp [Seg.rev]; omega
+  exact join_groups_closed shuffled hfresh (by rw [hcompact]; exact hdeg)
+
+/-- and each group is a whole connected component: no piece outside a group touches it -/
+theorem cut_rings_join_components (rings : List CutRing) (hv : ∀ r ∈ rings, r.Valid) (hnd : (rings.flatMap (·.vs)).Nodup)
+    (segs : List Seg) (hline : FreshInput segs) (hfull : segs.map (·.full) = rings.flatMap (·.pieces))
+    (flip : Seg → Bool) (shuffled : List Seg)
+    (hsh : (segs.map fun s => if flip s then s.rev else s).Perm shuffled)
+    (l1 : List (List Seg)) (g : List Seg) (l2 : List (List Seg)) (hout : join shuffled = l1 ++ g :: l2) :
+    ∀ p ∈ g.flatMap ends, p ∉ (l1 ++ l2).flatten.flatMap ends := by
+  have hdeg := cut_rings_deg rings hv hnd segs hfull flip shuffled hsh
+  have hmem : ∀ s' ∈ shuffled, ∃ s ∈ segs, s' = s ∨ s' = s.rev := by
+    intro s' hs'
+    have := hsh.mem_iff.mpr hs'
+    obtain ⟨s, hs, rfl⟩ := List.mem_map.mp this
+    refine ⟨s, hs, ?_⟩
+    split
+    · exact Or.inr rfl
+    · exact Or.inl rfl
+  have hlen : ∀ s ∈ segs, 2 ≤ s.line.length := by
+    intro s hs
+    rw [hline s hs]
+    have hin : s.full ∈ rings.flatMap (·.pieces) := by rw [← hfull]; exact List.mem_map.mpr ⟨s, hs, rfl⟩
+    obtain ⟨r, hr, hp⟩ := List.mem_flatMap.mp hin
+    exact r.pieces_length (hv r hr) _ hp
+  have hfresh : FreshInput shuffled := by
+    intro s' hs'
+    obtain ⟨s, hs, e | e⟩ := hmem s' hs'
+    · rw [e]; exact hline s hs
+    · rw [e]; simp only [Seg.rev]; rw [hline s hs]
+  have hcompact : compact shuffled = shuffled := by
+    unfold compact
+    apply List.filter_eq_self.mpr
+    intro s' hs'
+    obtain ⟨s, hs, e | e⟩ := hmem s' hs'
+    · rw [e]; have := hlen s hs; simp; omega
+    · rw [e]; have := hlen s hs; simp [Seg.rev]; omega
+  exact join_groups_are_components shuffled hfresh (by rw [hcompact]; exact hdeg) l1 g l2 hout
+
 /-! non-vacuity: a square cut at three of its corners and a triangle cut at one vertex -/
 def exRings : List CutRing := [⟨[(0,0),(4,0),(4,4),(0,4)], [0, 1, 3]⟩, ⟨[(1,1),(2,1),(1,2)], [2]⟩]
 example : ∀ r ∈ exRings, r.Valid := by
@@ -205,5 +295,11 @@ example : ∀ r ∈ exRings, r.Valid := by
 example : (exRings.flatMap (·.vs)).Nodup := by decide
 example : exRings.flatMap (·.pieces) =
     [[(0,0),(4,0)], [(4,0),(4,4),(0,4)], [(0,4),(0,0)], [(1,2),(1,1),(2,1),(1,2)]] := by decide
+
+/-- the square's three pieces and the triangle's single piece, two of them reversed, shuffled: two closed groups -/
+def exCutSegs : List Seg := [
+  (Seg.mk' 3 0 [(1,2),(1,1),(2,1),(1,2)]), (Seg.mk' 1 0 [(4,0),(4,4),(0,4)]).rev, Seg.mk' 0 0 [(0,0),(4,0)], (Seg.mk' 2 0 [(0,4),(0,0)]).rev]
+example : (join exCutSegs).map (fun g => (msFirst g, msLast g)) =
+    [(some (0,0), some (0,0)), (some (1,2), some (1,2))] := by decide
 
 end OsmVerif.Props.C16
